@@ -33,6 +33,8 @@ pub enum Point {
     LoopExit,
     /// loop thread: answer to the `$/verif/refs` probe
     Refs(usize),
+    /// a Router (one server) was created
+    RouterNew,
 }
 
 pub type Hook = Arc<dyn Fn(&Point) + Send + Sync>;
@@ -41,6 +43,45 @@ static HOOK: RwLock<Option<Hook>> = RwLock::new(None);
 
 pub fn install(hook: Option<Hook>) {
     *HOOK.write().unwrap() = hook;
+}
+
+/// With `IWE_VERIF_TRACE=<file>` in the environment and no hook installed, every point is
+/// appended to that file as one JSON line; the lock that serialises the writes also orders
+/// the lines (the points of the loop and of the workers interleave as they were reached).
+/// This is how executions of the repository's own tests are recorded for trace validation.
+pub fn install_file_sink_from_env() {
+    use std::io::Write;
+    use std::sync::Mutex;
+
+    let Ok(path) = std::env::var("IWE_VERIF_TRACE") else {
+        return;
+    };
+    if HOOK.read().unwrap().is_some() {
+        return;
+    }
+    let Ok(file) = std::fs::OpenOptions::new().create(true).append(true).open(path) else {
+        return;
+    };
+    let sink = Mutex::new(file);
+    let id = |id: &RequestId| id.to_string().trim_matches('"').to_string();
+    install(Some(Arc::new(move |point: &Point| {
+        let line = match point {
+            Point::ReqTaken(r) => format!("{{\"ev\":\"ReqTaken\",\"id\":\"{}\"}}", id(r)),
+            Point::WStart(r) => format!("{{\"ev\":\"Gate\",\"at\":\"WStart\",\"id\":\"{}\"}}", id(r)),
+            Point::WComputed(r) => format!("{{\"ev\":\"Gate\",\"at\":\"WComputed\",\"id\":\"{}\"}}", id(r)),
+            Point::WReturn(r) => format!("{{\"ev\":\"Gate\",\"at\":\"WReturn\",\"id\":\"{}\"}}", id(r)),
+            Point::WPanic(r) => format!("{{\"ev\":\"Gate\",\"at\":\"WPanic\",\"id\":\"{}\"}}", id(r)),
+            Point::NotifBegin(method) => format!("{{\"ev\":\"NotifBegin\",\"method\":\"{}\"}}", method),
+            Point::NotifDone => "{\"ev\":\"NotifDone\"}".to_string(),
+            Point::NotifWaiting => "{\"ev\":\"NotifWaiting\"}".to_string(),
+            Point::LoopPanic(_) => "{\"ev\":\"LoopPanic\"}".to_string(),
+            Point::LoopExit => "{\"ev\":\"LoopExit\"}".to_string(),
+            Point::Refs(n) => format!("{{\"ev\":\"Refs\",\"n\":{}}}", n),
+            Point::RouterNew => "{\"ev\":\"RouterNew\"}".to_string(),
+        };
+        let mut file = sink.lock().unwrap();
+        let _ = writeln!(file, "{}", line);
+    })));
 }
 
 pub fn at(point: Point) {
